@@ -303,7 +303,8 @@ def is_dippy_configured() -> bool:
 
 def get_context_from_transcript(transcript_path: str) -> int | None:
     """Read transcript JSONL and get actual context length from most recent message."""
-    if not transcript_path:
+    if not transcript_path or not isinstance(transcript_path, str):
+        # open(1) would adopt - and then close - the statusline's own stdout
         log.debug("transcript_no_path")
         return None
     try:
